@@ -32,6 +32,7 @@ struct State {
     log: Vec<XEv>,
     live: Vec<(u64, u32)>,
     fail_next_map: u32,
+    fail_next_foreign: u32,
 }
 
 static STATE: Mutex<Option<State>> = Mutex::new(None);
@@ -112,6 +113,12 @@ fn handler(fd: i32, req: u64, arg: *mut libc::c_void) -> Option<i32> {
             Some(0)
         }
         IOCTL_PRIVCMD_MMAPBATCH_V2 => {
+            if st.fail_next_foreign > 0 {
+                st.fail_next_foreign -= 1;
+                // SAFETY: errno of the calling thread.
+                unsafe { *libc::__errno_location() = libc::EFAULT };
+                return Some(-1);
+            }
             // SAFETY: the library passes a PrivCmdMmapBatchV2.
             unsafe {
                 let b = arg as *const MmapBatchV2;
@@ -160,6 +167,11 @@ impl Emu {
     }
     pub fn live(&self) -> Vec<(u64, u32)> {
         STATE.lock().unwrap().as_ref().map(|s| s.live.clone()).unwrap_or_default()
+    }
+    pub fn fail_next_foreign(&self, n: u32) {
+        if let Some(s) = STATE.lock().unwrap().as_mut() {
+            s.fail_next_foreign = n;
+        }
     }
     pub fn fail_next_map(&self, n: u32) {
         if let Some(s) = STATE.lock().unwrap().as_mut() {
